@@ -302,3 +302,24 @@ Proof.
   rewrite summary_first_line. intros H. apply find_some in H. destruct H as [_ H].
   destruct s; [discriminate|discriminate].
 Qed.
+
+(* ---------- attributes that are not literal doc lines ---------- *)
+
+Lemma literal_docs_app a b : literal_docs (a ++ b) = literal_docs a ++ literal_docs b.
+Proof. unfold literal_docs. apply flat_map_app. Qed.
+
+(* a macro-valued doc attribute or any other attribute, wherever it stands,
+   contributes nothing and hides nothing: the result is that of the item
+   without it *)
+Theorem non_literal_attrs_skipped pre x post :
+  x = ADocExpr \/ x = AOther ->
+  extract_attrs (pre ++ x :: post) = extract_attrs (pre ++ post).
+Proof.
+  intros H. unfold extract_attrs. rewrite !literal_docs_app.
+  destruct H as [-> | ->]; reflexivity.
+Qed.
+
+(* every literal doc line is kept, whatever stands between them *)
+Theorem attrs_text_lossless attrs :
+  shown (extract_attrs attrs) = declared_text (literal_docs attrs).
+Proof. apply doc_lossless_declared. Qed.
